@@ -40,7 +40,14 @@ def run(tier):
     th = [histgen.gen_history(rng3, nops=rng3.choice([30, 60]), comp="none", sizes=[3, 10000], rot=False, qr_mode="dense")
           for _ in range(32 if tier == "quick" else 300)]
     m3 = run_threads(chk, "plain", 8, 2, th, "c11t", relevant={"C11"})
-    chk.distinct = m1["execs"] + m1h["execs"] + m2["execs"] + m3["execs"]
+    # a block that could not be written (an I/O fault at every system call) stays buffered; the application buffers more
+    # records whose values it already holds, then recovers as documented: the block written then holds nothing twice
+    from checks.writer_common import run_scenarios
+    fs = [{"id": 1100 + i, "target": "exporter", "comp": comp, "kind": "fd", "max": 10000, "pre": [], "rebuffer": 6,
+           "steps": [{"op": "rec", "n": n}, {"op": "wb"}, {"op": "rec", "n": 3}, {"op": "wb"}, {"op": "recover"}]}
+          for i, (comp, n) in enumerate([("none", 150), ("none", 40)] + ([("gz", 150), ("none", 400)] if tier == "thorough" else []))]
+    m4 = run_scenarios(chk, "c16", fs, {"C11"}, "c11f")
+    chk.distinct = m1["execs"] + m1h["execs"] + m2["execs"] + m4["execs"] + m3["execs"]
     return chk.finish()
 
 
